@@ -86,5 +86,10 @@ RESPELL_FAMILIES = [
      ['/%e9', '/%E9'], '?a=%e9'),
     ('ftp', ['bücher.test', 'BÜCHER.TEST', 'xn--bcher-kva.test', 'XN--BCHER-KVA.test'], 21,
      ['/d/f', '/d/./f', '/d/x/../f'], ''),
+    # dot segments at the end of the path name a directory (RFC 3986 section 5.2.4:
+    # "/d/x/.." and "/d/." are "/d/")
+    ('http', ['a.test'], 80, ['/d/', '/d/x/..', '/d/.', '/d/x/../', '/d/./', '/d/x/y/../..',
+                              '/d/x/./..'], '?q'),
+    ('http', ['a.test'], 80, ['/', '/..', '/.', '/x/..', '/../.'], ''),
     ('http', ['a.test'], 80, ['/%aF%Af%fa', '/%AF%AF%FA', '/%af%af%fa'], '?x=%aB'),
 ]
